@@ -1,6 +1,6 @@
 SPECIFICATION Spec
 CONSTANT N = 2
-CONSTANT Variant = "fixed"
+CONSTANT Variant = "emit"
 CONSTANT MaxRunes = 5
 CONSTANT Kinds = {97, 10, 233}
 INVARIANT Refines
